@@ -100,6 +100,15 @@ class Batch(object):
 
 def replay(ctx, rp, prop):
     case = rp.get('case') or {}
+    if case.get('concurrent'):
+        w, orc, r = race_once(case['cfg'], case['ops'], case['concurrent'][0], case['concurrent'][1], case['schedule'])
+        print('two threads %r || %r -> pairs %r, final_result set=%r, final_exception=%r' % (
+            case['concurrent'][0], case['concurrent'][1], w.pairs, w.f._final_result is not H.cluster_mod()._NOT_SET, w.f._final_exception))
+        found = [f for f in orc.found if f[0] == prop]
+        for f in found:
+            print('property fails: %s: %s' % (f[1], f[2]))
+        print(('VIOLATION property=%s replay=%s' % (prop, ctx.replay_path)) if found else 'not reproduced')
+        return 1 if found else 0
     if not case.get('ops'):
         print('nothing to replay on the implementation: %s' % (rp.get('theorem'),))
         return 1
@@ -112,3 +121,72 @@ def replay(ctx, rp, prop):
         print('property fails: %s: %s (step %d)' % (f[1], f[2], f[3]))
     print(('VIOLATION property=%s replay=%s' % (prop, ctx.replay_path)) if found else 'not reproduced')
     return 1 if found else 0
+
+
+def directed(ctx):
+    for cfg, ops, punctual in G.directed_histories():
+        yield (cfg, ops, punctual and G.is_punctual(norm_cfg(cfg), ops), 'directed')
+
+
+# ---------------------------------------------------------------------------------------------- two threads (detsched)
+RACES = [
+    # (config, prefix, op A, op B): two completions that the driver may run on different threads
+    ({'plan': [1, 2, 3], 'timeout': 1000, 'specs': [100], 'pools': {1: 'ok', 2: 'ok', 3: 'ok'}, 'now': 0},
+     [['addcb'], ['send'], ['tick', 100], ['fire', 0]], ['resp', 0, 'rows', False, None], ['resp', 1, 'rows', False, None]),
+    ({'plan': [1, 2, 3], 'timeout': 1000, 'specs': [100], 'pools': {1: 'ok', 2: 'ok', 3: 'ok'}, 'now': 0},
+     [['addcb'], ['send'], ['tick', 100], ['fire', 0]], ['resp', 0, 'rows', False, None], ['resp', 1, 'other', None, 'Invalid']),
+    ({'plan': [1, 2, 3], 'timeout': 1000, 'specs': [100], 'pools': {1: 'ok', 2: 'ok', 3: 'ok'}, 'now': 0},
+     [['addcb'], ['send'], ['tick', 100], ['fire', 0], ['tick', 900]], ['fire', 1], ['resp', 0, 'rows', False, None]),
+]
+
+
+def race_once(cfg, prefix, op_a, op_b, schedule):
+    """-> (world, oracle, detsched run) after the prefix and the two concurrent calls"""
+    w = H.World(norm_cfg(cfg))
+    orc = G.Oracle(w, False)
+    for op in prefix:
+        w.step(op)
+    orc.before(['init'])
+    r = w.step_concurrent(op_a, op_b, schedule)
+    if r is not None:
+        orc.after(['threads'], True, len(prefix) + 1)
+    return w, orc, r
+
+
+def explore_races(ctx, prop='C14'):
+    """Directed search, not a proof: the two completions run on two real threads, switched at every source line of
+    cassandra/cluster.py, under every schedule with one preemption (A runs k lines, B runs to its end, A finishes) and a
+    sample of schedules with two."""
+    from vf import detsched
+    n = 0
+    for cfg, prefix, op_a, op_b in RACES:
+        scheds = detsched.schedules_two_threads(70, 1)
+        if ctx.tier == 'thorough':
+            scheds = scheds + [s for i, s in enumerate(detsched.schedules_two_threads(70, 2)) if i % 23 == 0]
+        for sched in scheds:
+            w, orc, r = race_once(cfg, prefix, op_a, op_b, sched)
+            if r is None:
+                continue
+            n += 1
+            errs = [e for e in r.errors if e is not None]
+            found = [f for f in orc.found if f[0] == prop]
+            if errs:
+                found.append((prop, 'thread-raised.threads', 'a completion raised on its thread: %r' % (errs,), len(prefix) + 1))
+            for (p, key, what, i) in found:
+                ctx.violation(key.rsplit('.', 1)[0] + '.two-threads', '%s -- two threads: %r || %r after %r, schedule %r' % (what, op_a, op_b, prefix, compact(sched)),
+                              case={'cfg': cfg, 'ops': prefix, 'concurrent': [op_a, op_b], 'schedule': sched}, kind='interleaving',
+                              expected='exactly one outcome', actual={'pairs': [dict(x) for x in w.pairs]}, theorem='C14_exactly_once')
+            if found:
+                break
+    ctx.count('threads', 'detsched_schedules', n)
+    ctx.trust('lib/vf/detsched.py (deterministic line-granular scheduler; search aid for two-thread completions)')
+
+
+def compact(sched):
+    out = []
+    for x in sched:
+        if out and out[-1][0] == x:
+            out[-1][1] += 1
+        else:
+            out.append([x, 1])
+    return out
